@@ -35,9 +35,29 @@ type E = uint16
 type omodel struct {
 	keys []E
 	vals map[E]uint8
+	// incarnation of every live key: the number of the insertion that created it (a delete + re-insert gives a new one)
+	born   map[E]int
+	births int
 }
 
-func newOModel() *omodel { return &omodel{vals: map[E]uint8{}} }
+func newOModel() *omodel { return &omodel{vals: map[E]uint8{}, born: map[E]int{}} }
+
+// neighbour: the key after (fwd) or before (!fwd) k in insertion order, if any.
+func (o *omodel) neighbour(k E, fwd bool) (E, bool) {
+	for i, x := range o.keys {
+		if x != k {
+			continue
+		}
+		if fwd && i+1 < len(o.keys) {
+			return o.keys[i+1], true
+		}
+		if !fwd && i > 0 {
+			return o.keys[i-1], true
+		}
+	}
+
+	return 0, false
+}
 
 func (o *omodel) has(k E) bool { _, ok := o.vals[k]; return ok }
 
@@ -45,6 +65,8 @@ func (o *omodel) set(k E, v uint8) (prev uint8, existed bool) {
 	prev, existed = o.vals[k]
 	if !existed {
 		o.keys = append(o.keys, k)
+		o.births++
+		o.born[k] = o.births
 	}
 	o.vals[k] = v
 
@@ -56,6 +78,7 @@ func (o *omodel) del(k E) bool {
 		return false
 	}
 	delete(o.vals, k)
+	delete(o.born, k)
 	for i, x := range o.keys {
 		if x == k {
 			o.keys = append(o.keys[:i:i], o.keys[i+1:]...)
@@ -67,7 +90,7 @@ func (o *omodel) del(k E) bool {
 	return true
 }
 
-func (o *omodel) clear() { o.keys = nil; o.vals = map[E]uint8{} }
+func (o *omodel) clear() { o.keys = nil; o.vals = map[E]uint8{}; o.born = map[E]int{} }
 
 func (o *omodel) kvs() string {
 	parts := make([]string, 0, len(o.keys))
@@ -95,8 +118,11 @@ type world struct {
 	om  *serializableorderedmap.SerializableOrderedMap[E, uint8]
 	omO *omodel
 	set [nRegs]ds.Set[E]
-	ar  ds.SetArithmetic[E]
-	arO map[E]int
+	// the ReadOnly() view of every register, taken once when the register was filled and held across all later
+	// mutations: it must stay a live view of the set (not a snapshot)
+	view [nRegs]ds.ReadableSet[E]
+	ar   ds.SetArithmetic[E]
+	arO  map[E]int
 	// one SetMutations object fed by the collector functions
 	arcM   ds.SetMutations[E]
 	arcAdd func(E)
@@ -115,6 +141,7 @@ func newWorld(r *hx.Run) *world {
 		ar: ds.NewSetArithmetic[E](), arO: map[E]int{}}
 	for i := range w.set {
 		w.set[i] = ds.NewSet[E]()
+		w.view[i] = w.set[i].ReadOnly()
 	}
 
 	return w
@@ -306,7 +333,7 @@ func (w *world) arg(a string) ds.ReadableSet[E] {
 	if strings.HasPrefix(a, "~") {
 		j, _ := strconv.Atoi(a[1:])
 
-		return w.set[j%nRegs].ReadOnly()
+		return w.view[j%nRegs]
 	}
 	if strings.HasPrefix(a, "ro:") {
 		return ds.NewReadableSet(parseList(a[3:])...)
@@ -405,7 +432,7 @@ func (w *world) exec1(op string) string {
 		if ro {
 			w.r.Count("receiver:readonly-view")
 
-			return w.set[i].ReadOnly()
+			return w.view[i]
 		}
 
 		return w.set[i]
@@ -547,9 +574,47 @@ func (w *world) exec1(op string) string {
 		var seen []E
 		var out []string
 		i := 0
+		// oracle "iteration-step" (the mathematical definition of iterating a map that changes between the steps): the
+		// first entry visited is the first (last) live key; from an entry that is still live — same incarnation — when its
+		// consumer returns, the iteration goes on to the key that follows (precedes) it in insertion order at that moment,
+		// and ends there if there is none.  So a key deleted while its predecessor is being visited is not visited, a key
+		// appended while the last entry is being visited is.  (Nothing is claimed for the steps after an entry that was
+		// deleted during its own visit: from there on the iteration may be walking through unlinked entries.)
+		fwdDir := f[1] == "fwd"
+		type expectation struct {
+			known, exists bool
+			key           E
+		}
+		var expect expectation
+		expect.known = true
+		if len(w.omO.keys) > 0 {
+			expect.exists = true
+			expect.key = w.omO.keys[0]
+			if !fwdDir {
+				expect.key = w.omO.keys[len(w.omO.keys)-1]
+			}
+		}
+		stepFail := func(detail string) {
+			w.r.Fail("iteration-step", detail, map[string]string{"api": "OrderedMap.ForEach", "oracle": "iteration-step"})
+		}
+		stopped := false
 		cb := func(k E, v uint8) bool {
 			out = append(out, fmt.Sprintf("%d:%d", k, v))
 			seen = append(seen, k)
+			if expect.known && (!expect.exists || expect.key != k) {
+				want := "the end of the iteration"
+				if expect.exists {
+					want = fmt.Sprintf("key %d", expect.key)
+				}
+				stepFail(fmt.Sprintf("%s visit %d: key %d, but the live key next in insertion order when the iteration advanced was %s (visited so far %v, live keys now %v)", f[1], i, k, want, seen, w.omO.keys))
+			}
+			if ov, ok := w.omO.vals[k]; expect.known && ok && ov != v {
+				stepFail(fmt.Sprintf("%s visit %d: key %d passed with value %d, the live value is %d", f[1], i, k, v, ov))
+			}
+			incarnation := 0
+			if expect.known && expect.exists && expect.key == k {
+				incarnation = w.omO.born[k] // the entry being visited is the live entry of k
+			}
 			vis := visits[i]
 			i++
 			for _, o := range vis.ops {
@@ -557,14 +622,23 @@ func (w *world) exec1(op string) string {
 					gone[d] = true
 				}
 			}
+			expect = expectation{}
+			if inc, live := w.omO.born[k]; live && inc == incarnation && incarnation != 0 {
+				expect.known = true
+				expect.key, expect.exists = w.omO.neighbour(k, fwdDir)
+			}
+			stopped = vis.stop || i >= 200
 
-			return !vis.stop && i < 200
+			return !stopped
 		}
 		var completed bool
-		if f[1] == "fwd" {
+		if fwdDir {
 			completed = w.om.ForEach(cb)
 		} else {
 			completed = w.om.ForEachReverse(cb)
+		}
+		if completed && !stopped && expect.known && expect.exists {
+			stepFail(fmt.Sprintf("%s iteration ended after %v although key %d follows the last visited entry in insertion order (live keys %v)", f[1], seen, expect.key, w.omO.keys))
 		}
 		if completed {
 			// oracle "weak-iteration": every key live throughout is visited exactly once, in (reverse) insertion order
@@ -621,13 +695,14 @@ func (w *world) exec1(op string) string {
 		w.resyncOM()
 		st := fmt.Sprintf("ok %d", n)
 		if err != nil {
-			st = "err"
+			st = fmt.Sprintf("err %d", n) // a failed Decode reports 0 bytes read
 		}
 
 		return st + " | " + w.omDump("SerializableOrderedMap.Decode")
 	// ------------------------------------------------------------------------------------------------------- sets
 	case "new":
 		w.set[num(1)] = ds.NewSet(parseList(f[2])...)
+		w.view[num(1)] = w.set[num(1)].ReadOnly()
 
 		return showList(w.set[num(1)].ToSlice())
 	case "add", "del":
@@ -828,6 +903,7 @@ func (w *world) exec1(op string) string {
 			w.fail("algebra", "Set.Clone", fmt.Sprintf("Clone of %v = %v", s.ToSlice(), c.ToSlice()))
 		}
 		w.set[num(2)] = c
+		w.view[num(2)] = c.ReadOnly()
 
 		return showList(c.ToSlice())
 	case "enc":
@@ -858,7 +934,7 @@ func (w *world) exec1(op string) string {
 		n, err := s.Decode(w.api, hx.UnHex(f[2]))
 		st := fmt.Sprintf("ok %d", n)
 		if err != nil {
-			st = "err"
+			st = fmt.Sprintf("err %d", n)
 		}
 
 		return st + " | " + showList(s.ToSlice())
@@ -954,6 +1030,24 @@ func (w *world) exec1(op string) string {
 		}
 
 		return fmt.Sprintf("+%s -%s", showList(ra), showList(rd))
+	case "wenc":
+		l := parseBig(f[2])
+		switch f[1] {
+		case "u8":
+			return wenc(w, "uint8", l, func(x uint64) uint8 { return uint8(x) })
+		case "i8":
+			return wenc(w, "int8", l, func(x uint64) int8 { return int8(uint8(x)) })
+		case "bool":
+			return wenc(w, "bool", l, func(x uint64) bool { return x != 0 })
+		case "u16":
+			return wenc(w, "uint16", l, func(x uint64) uint16 { return uint16(x) })
+		case "u32":
+			return wenc(w, "uint32", l, func(x uint64) uint32 { return uint32(x) })
+		case "u64":
+			return wenc(w, "uint64", l, func(x uint64) uint64 { return x })
+		}
+
+		return "bad-op"
 	case "codec":
 		return "ok"
 	case "tnew", "tset", "tdel", "tenc", "tdec":
@@ -978,6 +1072,126 @@ func (w *world) exec1(op string) string {
 	}
 
 	return "bad-op"
+}
+
+func parseBig(s string) []uint64 {
+	if s == "-" || s == "" {
+		return nil
+	}
+	var out []uint64
+	for _, p := range strings.Split(s, ",") {
+		n, err := strconv.ParseUint(p, 10, 64)
+		if err != nil {
+			panic("bad list " + s)
+		}
+		out = append(out, n)
+	}
+
+	return out
+}
+
+// wenc: a ds.Set of another element type (one-byte elements with zero-byte values up to eight-byte elements) is encoded and
+// decoded into a fresh set.  Oracle "codec-roundtrip": Decode succeeds, consumes everything, same elements in the same order.
+func wenc[T comparable](w *world, name string, l []uint64, conv func(uint64) T) string {
+	elems := make([]T, 0, len(l))
+	for _, x := range l {
+		elems = append(elems, conv(x))
+	}
+	s := ds.NewSet(elems...)
+	w.r.Count(fmt.Sprintf("codec-width:%s,size=%s", name, map[bool]string{true: "many", false: strconv.Itoa(s.Size())}[s.Size() > 2]))
+	b, err := s.Encode(w.api)
+	if err != nil {
+		return "err"
+	}
+	d := ds.NewSet[T]()
+	n, derr := d.Decode(w.api, b)
+	if derr != nil || n != len(b) || !reflect.DeepEqual(d.ToSlice(), s.ToSlice()) {
+		w.r.Fail("codec-roundtrip", fmt.Sprintf("Set[%s]: Decode(Encode(%v)) = %v n=%d/%d err=%v (encoding %s)", name, s.ToSlice(), d.ToSlice(), n, len(b), derr, hx.Hex(b)),
+			map[string]string{"api": "Set.Encode/" + name, "oracle": "codec-roundtrip"})
+	}
+	// the same through the map type itself with a one-byte value
+	om := serializableorderedmap.New[T, uint8]()
+	for i, e := range s.ToSlice() {
+		om.Set(e, uint8(i))
+	}
+	if mb, merr := om.Encode(w.api); merr == nil {
+		dm := serializableorderedmap.New[T, uint8]()
+		mn, mderr := dm.Decode(w.api, mb)
+		same := mderr == nil && mn == len(mb) && dm.Size() == om.Size()
+		i := 0
+		dm.ForEach(func(k T, v uint8) bool {
+			same = same && i < len(elems) && k == s.ToSlice()[i] && v == uint8(i)
+			i++
+
+			return true
+		})
+		if !same {
+			w.r.Fail("codec-roundtrip", fmt.Sprintf("SerializableOrderedMap[%s,uint8]: Decode(Encode(m)) differs: n=%d/%d err=%v (encoding %s)", name, mn, len(mb), mderr, hx.Hex(mb)),
+				map[string]string{"api": "SerializableOrderedMap.Encode/" + name, "oracle": "codec-roundtrip"})
+		}
+	}
+	st := fmt.Sprintf("ok %d", n)
+	if derr != nil {
+		st = fmt.Sprintf("err %d", n)
+	}
+	var shown []string
+	for _, e := range d.ToSlice() {
+		shown = append(shown, showElem(e))
+	}
+
+	return hx.Hex(b) + " | " + st + " [" + strings.Join(shown, " ") + "]"
+}
+
+// showElem prints an element as the unsigned number of its bit pattern (what the Lean model calls the element).
+func showElem(e any) string {
+	switch x := e.(type) {
+	case uint8:
+		return strconv.Itoa(int(x))
+	case int8:
+		return strconv.Itoa(int(uint8(x)))
+	case bool:
+		if x {
+			return "1"
+		}
+
+		return "0"
+	case uint16:
+		return strconv.Itoa(int(x))
+	case uint32:
+		return strconv.FormatUint(uint64(x), 10)
+	case uint64:
+		return strconv.FormatUint(x, 10)
+	}
+
+	return "?"
+}
+
+// genWidth: sets of 0, 1, 2 or many elements of every width.
+func genWidth(rng *hx.Rng) string {
+	t := hx.Pick(rng, []string{"u8", "u8", "i8", "bool", "u16", "u32", "u64"})
+	bits := map[string]uint{"u8": 8, "i8": 8, "bool": 1, "u16": 16, "u32": 32, "u64": 64}[t]
+	n := []int{0, 1, 1, 2, 2, rng.Range(3, 40)}[rng.Intn(6)]
+	seen := map[uint64]bool{}
+	var parts []string
+	for tries := 0; len(parts) < n && tries < 200; tries++ {
+		x := rng.U64()
+		if rng.Chance(1, 2) {
+			x &= 0xff // small values: the high bytes are zero
+		}
+		if bits < 64 {
+			x &= (uint64(1) << bits) - 1
+		}
+		if seen[x] {
+			continue
+		}
+		seen[x] = true
+		parts = append(parts, strconv.FormatUint(x, 10))
+	}
+	if len(parts) == 0 {
+		return "wenc " + t + " -"
+	}
+
+	return "wenc " + t + " " + strings.Join(parts, ",")
 }
 
 func thrClass(t int) string {
@@ -1116,6 +1330,59 @@ func genChurn(rng *hx.Rng) []string {
 	}
 
 	return ops
+}
+
+// genWalkTargeted: a map with a known order, then one iteration whose consumer deletes the next / previous / current
+// entry (in iteration direction), re-inserts a deleted key or appends a new key — in particular while the last entry is
+// being visited.
+func genWalkTargeted(rng *hx.Rng) []string {
+	ops := []string{"mclear"}
+	n := rng.Range(1, 5)
+	order := genList(rng, universe)
+	for len(order) < n {
+		order = genList(rng, universe)
+	}
+	order = order[:n]
+	for _, k := range order {
+		ops = append(ops, fmt.Sprintf("mset %d %d", k, rng.Intn(10)))
+	}
+	fwd := rng.Chance(2, 3)
+	seq := append([]E(nil), order...)
+	if !fwd {
+		for a, b := 0, len(seq)-1; a < b; a, b = a+1, b-1 {
+			seq[a], seq[b] = seq[b], seq[a]
+		}
+	}
+	var toks []string
+	for i := 0; i < n; i++ {
+		if !rng.Chance(1, 2) && i != n-1 {
+			continue
+		}
+		var vops []string
+		for j := rng.Range(1, 2); j > 0; j-- {
+			switch x := rng.Intn(10); {
+			case x < 3 && i+1 < n:
+				vops = append(vops, fmt.Sprintf("d%d", seq[i+1])) // the entry the iteration would come to next
+			case x < 4 && i+2 < n:
+				vops = append(vops, fmt.Sprintf("d%d", seq[i+2]))
+			case x < 5 && i > 0:
+				vops = append(vops, fmt.Sprintf("d%d", seq[i-1])) // an entry already visited
+			case x < 6:
+				vops = append(vops, fmt.Sprintf("d%d", seq[i])) // the entry being visited
+			case x < 8:
+				vops = append(vops, fmt.Sprintf("s%d.%d", 6+rng.Intn(3), rng.Intn(10))) // a new key: appended at the tail
+			default:
+				vops = append(vops, fmt.Sprintf("s%d.%d", seq[rng.Intn(n)], rng.Intn(10))) // overwrite or re-insert
+			}
+		}
+		toks = append(toks, fmt.Sprintf("%d:%s", i, strings.Join(vops, ",")))
+	}
+	dir := "fwd"
+	if !fwd {
+		dir = "rev"
+	}
+
+	return append(ops, strings.TrimSpace("mwalk "+dir+" "+strings.Join(toks, " ")), "mdump")
 }
 
 func genVisits(rng *hx.Rng) string {
@@ -1397,6 +1664,12 @@ func main() {
 		if rng.Chance(1, 2) {
 			ops = append(ops, genCollectors(rng)...)
 		}
+		if rng.Chance(1, 2) {
+			ops = append(ops, genWalkTargeted(rng)...)
+		}
+		if rng.Chance(1, 3) {
+			ops = append(ops, genWidth(rng))
+		}
 		runCase(r, sub, ops)
 	}
 	// long delete-heavy histories: the dictionary is rebuilt (ShrinkingMap.shrink) under the ordered map
@@ -1417,6 +1690,9 @@ var corpus = [][]string{
 	// iteration through unlinked elements
 	{"mset 0 0", "mset 1 1", "mset 2 2", "mset 3 3", "mset 4 4", "mwalk fwd 1:d1,d2,s1.5", "mwalk rev 0:d1,d4 1:s4.4,x", "mwalk fwd 0:c,s5.5"},
 	{"mset 0 0", "mset 1 1", "mset 2 2", "mwalk fwd 0:d0 1:d1 2:d2", "mset 3 3", "mwalk rev 0:d3,s3.1"},
+	// the consumer deletes the entry that would come next / appends while the last entry is visited / deletes behind itself
+	{"mset 0 0", "mset 1 1", "mset 2 2", "mwalk fwd 0:d1", "mset 1 1", "mwalk rev 0:d2", "mwalk fwd 2:s5.5", "mwalk rev 2:s4.4 1:d5",
+		"mwalk fwd 1:d0,d2", "mclear", "mset 3 3", "mwalk fwd 0:s4.4 1:s5.5 2:d3", "mwalk rev 0:d4,s4.1"},
 	// overlapping mutations: added then deleted
 	{"new 0 1,2", "apply 0 2,3,4 4,1,5", "apply 0 1 1", "compute 0 0,1 1,2,3"},
 	// DeleteAll / AddAll
@@ -1424,6 +1700,9 @@ var corpus = [][]string{
 	// codec
 	{"new 0 3,1,2", "enc 0", "dec 1 03000000030001000200", "dec 1 0200000005000100", "dec 1 03000000030001", "dec 2 ffffffff0100", "dec 2 -", "dec 2 0000"},
 	{"mset 3 7", "mset 1 2", "menc", "mdec 0200000001000903000a", "mdec 01000000", "mdec 0100000004"},
+	// one-byte elements with zero-byte values, sizes 0, 1, 2, many; wider elements
+	{"wenc u8 -", "wenc u8 7", "wenc u8 200,7", "wenc u8 1,2,3,4,5,6,7,8,9,10,11,12", "wenc i8 255", "wenc i8 128,127,0", "wenc bool 1", "wenc bool 0,1",
+		"wenc u16 513", "wenc u32 4294967295,1", "wenc u64 18446744073709551615", "wenc u64 9223372036854775813,2,1099511627776"},
 	// duplicate keys in the encoded bytes
 	{"mdec 02000000010005010007", "mdec 03000000010005020006010007", "dec 0 0200000003000300", "dec 1 03000000010002000100", "mfe", "slice 0"},
 	// arithmetic
